@@ -1,0 +1,28 @@
+//! Verification hook (feature `verif_hooks` only): a per-thread interposer for the single
+//! file-system read performed by [`LocalLoader`](super::LocalLoader).
+//!
+//! With no interposer installed (or when it answers `None`), the real `std::fs::read` is used.
+use std::cell::RefCell;
+use std::io;
+use std::path::{Path, PathBuf};
+
+/// Sees every path `LocalLoader::get` is about to read;
+/// may answer in place of the file system (`Some`), or let the real read happen (`None`).
+pub type FsInterposer = Box<dyn FnMut(&Path) -> Option<io::Result<Vec<u8>>>>;
+
+thread_local! {
+    static INTERPOSER: RefCell<Option<FsInterposer>> = const { RefCell::new(None) };
+}
+
+/// Install (or remove, with `None`) the interposer of the current thread.
+pub fn set_fs_interposer(f: Option<FsInterposer>) {
+    INTERPOSER.with(|i| *i.borrow_mut() = f);
+}
+
+pub(crate) fn fs_read(path: PathBuf) -> io::Result<Vec<u8>> {
+    let injected = INTERPOSER.with(|i| i.borrow_mut().as_mut().and_then(|f| f(&path)));
+    match injected {
+        Some(res) => res,
+        None => std::fs::read(path),
+    }
+}
